@@ -20,6 +20,37 @@ CLAIMS = {
             "before the first). Tie to the code: bit-exact correspondence of the extracted model with "
             "ControlPoints::add/*_point_at on exhaustive small-alphabet and random histories, plus a linear-scan oracle.",
             "§6 C13"),
+    "C07": ("Unbounded theorems (coq/Properties/C07.v), for ANY curve-distance function: the nine decoder types are nine "
+            "instantiations of the framing driver with their state nesting and delegation chains written out as in the "
+            "code; for each specialised decoder, whenever the full Beatmap decode completes its projection on the shared "
+            "fields IS the specialised decoder's result (simulation relation preserved by all eleven parse functions and "
+            "the finishing conversions), HitObjects agrees exactly including failures, the parse never fails and the "
+            "Beatmap decode can only fail inside the curve distance; all nine use the same skip rule. Tie to the code: "
+            "bit-exact correspondence of all nine extracted decoders with from_bytes::<T> on whole generated files "
+            "(curves and map-level processing included), plus the oracle T == projection of Beatmap on generated, "
+            "mutated, noisy and bundled inputs.",
+            "§6 C07"),
+    "C06": ("Unbounded theorems (coq/Properties/C06.v): for every state of every section parser of every decoder a rejected "
+            "line leaves the state equal up to the two scratch buffers of the hit-object state (T06a); that equivalence is "
+            "a congruence for every parser and the finishing conversions ignore the scratch buffers (T06b); hence for all "
+            "nine decoders decoding pre ++ l :: post equals decoding pre ++ post whenever l is routed to a parser and "
+            "rejected there (T06c, via the framing deletion lemma). D3 (residue of a rejected multi-segment slider) was "
+            "found by this machinery and repaired (fix 26f4d98). Tie to the code: full-decode correspondence on files with "
+            "targeted corruptions; oracle: a probing decoder records the rejected routed lines, each is removed and the "
+            "results must be equal.",
+            "§6 C06"),
+    "C01": ("PARTIAL, one theorem per layer (coq/Properties/C01.v). Proved: from lines to value every decoder's parse never "
+            "panics (hit-object lines, timing-point lines and flush, control-point lookups by sortedness, slider loop "
+            "body, framing fuel), TimingPoints and the seven simpler decoders are total outright, HitObjects/Beatmap are "
+            "total whenever the curve distance returns a value on the sliders present (the only remaining obligation is "
+            "the Bezier subdivision fuel, measured generous but not proved for IEEE arithmetic); node count = repeats + 2 "
+            "<= 9001; NonZeroU32::new_unchecked only sees values >= 2. Bytes to lines: C08/C09/C10 theorems (no panic, "
+            "fuel sufficient, errors only from the reader except the recorded class D6). OPEN: encoder totality / UTF-8 "
+            "validity of re-encoding as a theorem (covered by correspondence and oracle only), memory safety of the unsafe "
+            "blocks (outside the model). Tie to the code: all nine decoders on noise, grammar files, mutations, "
+            "truncations at every length, BOM/UTF-16 variants, in release, debug (overflow checks) and tracing-feature "
+            "builds with a formatting subscriber; 15 s watchdog per input.",
+            "§6 C01"),
     "C10": ("Unbounded theorems (coq/Properties/C10.v, axiom-free): UTF-8 / UTF-16LE / UTF-16BE codec round trips for every "
             "scalar string; unpaired surrogates become U+FFFD; the hand-written lossy loop of encoding.rs equals a one-pass "
             "lossy_spec automaton for ALL byte lists (never out of fuel; the unchecked prefix always validates) and is "
@@ -52,11 +83,63 @@ CLAIMS = {
             "ended before the object, and with chronologically ordered breaks forces the first object after a break; "
             "sliders get velocity = 100*SM/(beat_len*clamp(100/sv)/100) literally, duration = spans*dist/velocity, node "
             "and object samples from the sample point 5 ms after each node / the end by the SamplePoint::apply rules; "
-            "constants pinned. PARTIAL: shift invariance (T15d) is not proved, only tested by the oracle on integer times "
-            "and shifts. Tie to the code: implementation-side oracle written from the property text (stable order incl. "
+            "constants pinned. Shift invariance (T15d): REFUTED for non-integer times with a Coq witness (finding D20: "
+            "fl(parse t + 5) vs parse(t + 5)); for integer times it is not proved, only tested by the oracle (integer and "
+            "fractional-time maps, shifts in [-1e6,1e6]). Tie to the code: implementation-side oracle written from the property text (stable order incl. "
             ">20 ties, breaks, closed-form velocity/duration, sample defaults, shifts in [-1e6,1e6]); correspondence of the "
             "decoder models on the same files.",
             "§6 C15"),
+    "C16": ("PARTIAL. Proved (coq/Properties/C16.v, all inputs, IEEE arithmetic): complete case analysis of calculate_length "
+            "- no requested length => natural cumulative lengths; requested L: within epsilon => natural (deviation D9 when "
+            "different), last two points equal and L longer => natural plus one repeated entry, single vertex => [0], "
+            "otherwise the last cumulative length IS L (the very same value), sizes agree, first length 0, the path is a "
+            "prefix of the natural path plus the adjusted end point, cut index characterised; over the reals the osu!-mode "
+            "Catmull simplification keeps kept-length + surplus = full polyline length with a non-negative surplus (T16c, "
+            "on the same loop as the model). NOT proved: exact-arithmetic geometry of the cut/extension (T16b), "
+            "monotonicity under rounding (T16d) - "
+            "these are measured by the oracle (dist == L bitwise with the stated exceptions, cut geometry in f64, lengths "
+            "start at 0 / monotone within 1e-5 / finite). Tie to the code: bit-exact correspondence of Curve::new "
+            "(path and lengths) incl. arcs through real libm on grids and random control-point lists, all modes and length classes.",
+            "§6 C16"),
+    "C17": ("PARTIAL. Proved (coq/Properties/C17.v): structure for all inputs in IEEE arithmetic - linear segments copy their "
+            "vertices, a Bezier segment starts at its first and ends at its last control point (both buffer levels), perfect "
+            "curves that are not three points / collinear / need >= 1000 sub-points fall back to Bezier, arc and Catmull "
+            "vertex counts, the joint-vertex skip characterised exactly; over the reals the Catmull formulas are the "
+            "Catmull-Rom polynomial interpolating v2 and v3; de Casteljau: the left/right control polygons evaluate to the "
+            "parent curve at t/2 and (1+t)/2 (T17b, reals, on the model's subdivision); the arc centre is equidistant from "
+            "the three points, every emitted point lies on the circle and the end points are the first and last vertices "
+            "under the stated libm hypotheses (T17d); tolerances pinned. NOT proved: the Hausdorff bound itself (T17e) - "
+            "the oracle measures the two-sided distance to "
+            "exactly evaluated curves under a bound derived from the tolerances. Recorded deviation D19 (ill-conditioned "
+            "three-point arcs). Tie to the code: bit-exact correspondence of computed paths.",
+            "§6 C17"),
+    "C18": ("Unbounded theorems (coq/Properties/C18.v): the buffer-reusing computation (explicit CurveBuffers, in-place Bezier "
+            "subdivision, mem::take) equals the pure curve for any prior buffer contents; owned and borrowed constructors "
+            "agree; for every history over the SliderPath accessors and foreign computations on the same buffers each read "
+            "equals the cache-free, buffer-free specification and the cache invariant holds; every mutable accessor "
+            "invalidates - all for EVERY control-point list including the empty one and with no side condition (D7, the "
+            "empty-list case, was found by this check and repaired: fix 738fe2f). Tie to the code: "
+            "bit-exact correspondence on histories over pools of control-point lists sharing one buffer set.",
+            "§6 C18"),
+    "C19": ("PARTIAL. Proved (coq/Properties/C19.v, IEEE): progress is clamped below 0 and above 1 (NaN kept), progress_to_dist "
+            "= progress x dist inside [0,1], all end cases of interpolate_vertices, the transcribed std search stays in "
+            "bounds for any comparator, no panic on any computed curve, every position is the origin, a vertex or on the "
+            "selected segment, progress 0 is exactly the first vertex under finiteness/positivity; at a vertex's own "
+            "cumulative length and at progress 1 (last length strictly largest) the interpolation weight is exactly 1, so "
+            "the position is that vertex up to one rounding; in exact arithmetic vertex hits and the per-segment Lipschitz "
+            "bound / isometry. NOT proved: the Lipschitz bound across segments in IEEE arithmetic, vertex hits reached "
+            "through lengths[i]/dist, progress 1 with a repeated last length - measured by the oracle within rounding slack. Tie "
+            "to the code: bit-exact position_at / progress_to_dist / idx_of_dist / interpolate_vertices.",
+            "§6 C19"),
+    "C20": ("Unbounded theorems (coq/Properties/C20.v): the lazy iterator state machine with its reversed tick stack equals "
+            "the eager event list written from the property text, for every parameter set, ANY initial buffer contents "
+            "(buffer independence, abandoned iterators), both integer-overflow modes and any fuel; structure, span indices, "
+            "closed forms of head / repeats / legacy last tick / tail; zero tick distance => no ticks, every repeat; exact "
+            "characterisation of when the constructor panics (recorded finding D18: total_dist < 0); in exact arithmetic "
+            "ticks lie at multiples of the tick distance, stop before len - 10*velocity, are chronological. PARTIAL for "
+            "IEEE: ticks are the running sums and weakly chronological; the rounding bound is not proved. Tie to the code: "
+            "bit-exact event streams for grids, random sliders and multi-iterator histories sharing one buffer.",
+            "§6 C20"),
     "C11": ("Unbounded theorems (coq/Properties/C11.v): each of the six section parsers equals a table-driven "
             "specification written from the property text, for every state and line (key table, conversion, field); "
             "rejected or unknown records leave the state untouched; last valid occurrence wins (generic fold lemma); "
